@@ -47,14 +47,30 @@ def gen_cases(ctx, rng, count):
             # list of the variable must not be seen by the second one; traces often shorter than the bounds
             f = F.shared_variable_formula(rng, g, VARS)
             stream = "shared-variable"
+        elif r < 0.18:
+            # the sugar `p unless[a,b] q` / `p unless q` (the parser expands it to `always[0,b] p or p until[a,b] q`): the text
+            # uses the sugar, the model gets the expansion the README gives
+            p_, q_ = g.formula(rng.choice([0, 1, 1, 2])), g.formula(rng.choice([0, 1]))
+            if rng.random() < 0.8:
+                a_ = rng.randint(0, 3)
+                b_ = a_ + rng.randint(0, 3)
+                f = ("b", "or", ("tb1", "alw", 0, b_, p_), ("tb2", "until", a_, b_, p_, q_))
+                unless_text = "((%s) unless[%d,%d] (%s))" % (F.to_text(p_), a_, b_, F.to_text(q_))
+            else:
+                f = ("b", "or", ("t1", "alw", p_), ("t2", "until", p_, q_))
+                unless_text = "((%s) unless (%s))" % (F.to_text(p_), F.to_text(q_))
+            if rng.random() < 0.3:
+                f = ("u", "not", f)
+                unless_text = "(not %s)" % unless_text
+            stream = "unless-sugar"
         elif r < 0.75:
             f = g.formula(d)
             stream = "typed"
         else:
             f = g.untyped(min(d, 4))
             stream = "untyped"
-        if stream == "shared-variable":
-            n = rng.randint(1, 6)
+        if stream in ("shared-variable", "unless-sugar"):
+            n = rng.randint(1, 8)
         elif rng.random() < 0.15:
             n = 1
             stream += "/n=1"
@@ -78,7 +94,10 @@ def gen_cases(ctx, rng, count):
             from . import c08
             u_, p_, pu_ = rng.choice(c08.configs(rng))
             render = [rng.randint(0, 10 ** 6), u_, str(p_), pu_]
-        cases.append({"stream": stream, "f": f, "n": n, "data": data, "decl": dvars, "struct": struct, "period": period, "render": render})
+        case = {"stream": stream, "f": f, "n": n, "data": data, "decl": dvars, "struct": struct, "period": period, "render": render}
+        if stream == "unless-sugar":
+            case.update(struct=[], period=None, render=None, text="out = " + unless_text)
+        cases.append(case)
     return cases
 
 
@@ -96,6 +115,8 @@ def rendered(case):
 
 
 def spec_text(case):
+    if case.get("text"):
+        return case["text"]
     if case.get("render"):
         return rendered(case)[0]
     per = case.get("period")
@@ -118,7 +139,7 @@ def check_case(ctx, case, model_off, model_rho, model_gen=None):
     f, n, data = case["f"], case["n"], case["data"]
     out = impl_eval(case)
     text = spec_text(case)
-    rep = {"render": case.get("render"), "period": case.get("period"), "struct": list(case.get("struct") or ()), "spec": text, "declare": case["decl"], "data": data, "n": n, "formula": F.to_proto(f), "monitor": "discrete offline",
+    rep = {"sugar_text": case.get("text"), "render": case.get("render"), "period": case.get("period"), "struct": list(case.get("struct") or ()), "spec": text, "declare": case["decl"], "data": data, "n": n, "formula": F.to_proto(f), "monitor": "discrete offline",
            "model_evalOff": model_off, "model_rho": model_rho, "impl": out}
     if model_rho[0] == "undef":
         expected = None
@@ -225,7 +246,7 @@ def explore(ctx, rng, count, label):
 
 def minimise(ctx, case, v):
     """Shrink a failing case (greedy), re-running implementation and model."""
-    if "time" in v.replay:
+    if "time" in v.replay or case.get("text"):
         return v
 
     from ..engine import Ctx
@@ -289,7 +310,7 @@ def case_of_replay(obj):
     f = F.from_proto(obj["formula"])
     data = {k: [float(x) for x in v] for k, v in obj["data"].items()}
     return {"stream": "replay", "f": f, "n": obj["n"], "data": data, "decl": obj.get("declare") or sorted(data),
-            "struct": obj.get("struct") or [], "period": obj.get("period"), "render": obj.get("render")}
+            "struct": obj.get("struct") or [], "period": obj.get("period"), "render": obj.get("render"), "text": obj.get("sugar_text")}
 
 
 def replay(ctx, obj):
